@@ -140,7 +140,8 @@ fn corruption_programs(tier: Tier) -> Vec<String> {
     trees.iter().step_by(step).map(|t| parse::print(t, &ops, Parens::Minimal)).collect()
 }
 
-/// case i: kind = i % 3 (prefix, infix, postfix), primed = i >= 3
+/// case i: kind = i % 3 (prefix, infix, postfix), primed = i >= 3, registration made by
+/// another (joined) thread = i >= 6
 fn registered_case(i: u64, out: &mut WorkerOut) {
     use crate::model::lex::InfixInfo;
     use expression_engine::{InfixOpAssociativity, InfixOpType};
@@ -148,27 +149,35 @@ fn registered_case(i: u64, out: &mut WorkerOut) {
     let word = "wop";
     let kind = ["prefix", "infix", "postfix"][(i % 3) as usize];
     let primed = i >= 3;
+    let xthread = i >= 6;
     let alphabet = ["1", "x", word, "(", ")", ",", "+", ";"];
     let seqs = TokenSeqs { alphabet: alphabet.to_vec(), max_len: 5 };
     let mut ops = OpSet::builtin();
-    let stage = format!("registered[{}{}]", kind, if primed { ",word parsed before registration" } else { "" });
+    let stage = format!("registered[{}{}{}]", kind, if primed { ",word parsed before registration" } else { "" }, if xthread { ",registered by another thread" } else { "" });
     if primed {
         // the word is an ordinary name for now
         for j in 0..seqs.len() {
             judge(&seqs.spaced(j), &ops, &stage, out);
         }
     }
+    let reg = move || match kind {
+        "prefix" => expression_engine::register_prefix_op(word, Arc::new(|v| Ok(v))),
+        "infix" => expression_engine::register_infix_op(word, 105, InfixOpType::CALC, InfixOpAssociativity::LEFT, Arc::new(|a, _| Ok(a))),
+        _ => expression_engine::register_postfix_op(word, Arc::new(|v| Ok(v))),
+    };
+    if xthread {
+        std::thread::spawn(reg).join().expect("registration thread");
+    } else {
+        reg();
+    }
     match kind {
         "prefix" => {
-            expression_engine::register_prefix_op(word, Arc::new(|v| Ok(v)));
             ops.prefix.insert(word.into());
         }
         "infix" => {
-            expression_engine::register_infix_op(word, 105, InfixOpType::CALC, InfixOpAssociativity::LEFT, Arc::new(|a, _| Ok(a)));
             ops.infix.insert(word.into(), InfixInfo { prec: 105, left: true, setter: false });
         }
         _ => {
-            expression_engine::register_postfix_op(word, Arc::new(|v| Ok(v)));
             ops.postfix.insert(word.into());
         }
     }
@@ -206,10 +215,10 @@ impl Prop for C05 {
         });
         stages.push(Stage {
             name: "registered".into(),
-            len: 6,
+            len: 9,
             chunk: 1,
             timeout: Duration::from_secs(300),
-            what: "fresh process: {prefix, infix, postfix} word operator registered, with or without parsing text that contains the word beforehand; then every sequence of <= 5 tokens over {1, x, the word, (, ), ',', +, ;} judged under the extended table".into(),
+            what: "fresh process: {prefix, infix, postfix} word operator registered, with or without parsing text that contains the word beforehand (and, parsed beforehand, with the registration made by another thread); then every sequence of <= 5 tokens over {1, x, the word, (, ), ',', +, ;} judged under the extended table".into(),
         });
         let n = corruption_programs(tier).len() as u64;
         stages.push(Stage {
